@@ -48,7 +48,11 @@ RULE = ('program = class (LockedMachine / LockedHierarchicalMachine), machine_co
         'stale trigger (leaves an empty defaultdict entry) -> add_model(m again, alone / after a registered model / twice / '
         'with a new model); then two or more threads send events to m; everything outside the stale call itself must agree '
         'with the model and satisfy the oracle). %d sampled schedules per program '
-        '(random bursts, then two completion passes); in 20%% of the std/setup programs context managers misbehave for chosen '
+        '(random bursts, then two completion passes); in about a third of the std/setup programs (and 2 in every 20 whatever the '
+        'seed) model 0 is THE MACHINE ITSELF (model=\'self\', via the constructor or add_model(\'self\', model_context=..)), and '
+        'in about 35%% of all programs the whole machine (callbacks by name, picklable instrumented contexts and models) goes '
+        'through a pickle or deepcopy round trip before the threads start - afterwards every event on every model must '
+        'still hold the configured contexts; in 20%% of the std/setup programs context managers misbehave for chosen '
         'top-level calls: the __enter__ of a machine or model context (first / middle / last position, also one the call never '
         'enters) refuses = raises instead of acquiring, or its __exit__ raises after releasing (expected: everything entered '
         'so far is released in reverse order, nothing of the call is processed, the call raises, other threads get through); thorough tier adds every maximal schedule (no blocked attempts) of '
@@ -274,8 +278,17 @@ def gen_program(rng, p):
                 pool += [3, 4, 5]                                  # possibly a context this call never enters
             if pool and not any(f[0] == cid for f in fails):
                 fails.append([cid, rng.choice(pool), 1 if rng.random() < 0.7 else 2])
+    # the machine as its own model (model='self') and / or a pickle / deepcopy round trip of the whole machine before
+    # the threads start: afterwards everything must be locked exactly as before
+    rng2 = random.Random('C06-self-%d-%r' % (p, rng.random()))
+    self_model, roundtrip = None, 0
+    if stream in ('std', 'setup') and (rng2.random() < 0.25 or p % 20 in (3, 12)):
+        self_model = 0                                # model 0 is a registered event target in these streams
+    if rng2.random() < 0.3 or p % 20 in (3, 12):
+        roundtrip = 1 if (rng2.random() < 0.65 or p % 20 == 3) else 2
     return dict(cls=cls, mctx=mctx, models=models, states=[0, 1, 2], trans=trans, calls=calls, progs=progs,
-                sched=[], mode=0, stream=stream, stale_calls=stale, fails=fails)
+                sched=[], mode=0, stream=stream, stale_calls=stale, fails=fails, self_model=self_model,
+                roundtrip=roundtrip)
 
 
 def completion_suffix(nt, k=70):
@@ -412,6 +425,14 @@ class Ctx(object):
     def __init__(self, run, cid):
         self.run, self.cid, self.owner = run, cid, None
 
+    def __getstate__(self):
+        return dict(cid=self.cid, run_id=self.run.run_id)
+
+    def __setstate__(self, st):           # the copy made by pickle / deepcopy takes the place of the original
+        self.cid, self.owner = st['cid'], None
+        self.run = _RUNS[st['run_id']]
+        self.run.ctxs[self.cid] = self
+
     def __enter__(self):
         run = self.run
         w = run.by_ident.get(threading.get_ident())
@@ -450,8 +471,40 @@ class Ctx(object):
         return False
 
 
+_RUNS = {}                    # run id -> Run: lets picklable models / contexts find their run again
+_RUN_IDS = [0]
+
+
+def _cb_method(i):
+    def c06cb(self, ed):
+        return _RUNS[self.run_id].on_cb(i, ed)
+    c06cb.__name__ = 'c06cb%d' % i
+    return c06cb
+
+
 class Model(object):
-    pass
+    """picklable model: the machine-level callbacks are given BY NAME and resolved on the event's model"""
+    run_id = 0
+    mid = 99
+    c06cb0, c06cb1, c06cb2, c06cb3 = _cb_method(0), _cb_method(1), _cb_method(2), _cb_method(3)
+
+
+_SELF_CLASSES = {}
+
+
+def self_class(cname):
+    """subclass of the locked class that can act as its own model (has the callback methods); registered in this
+    module so that pickle finds it"""
+    if cname not in _SELF_CLASSES:
+        base = flat.get_class(cname)
+        name = 'Self' + cname
+        ns = dict(run_id=0, mid=99, __module__=__name__)
+        for i in range(4):
+            ns['c06cb%d' % i] = _cb_method(i)
+        k = type(name, (base,), ns)
+        globals()[name] = k
+        _SELF_CLASSES[cname] = k
+    return _SELF_CLASSES[cname]
 
 
 def _res(f):
@@ -482,52 +535,81 @@ class Run(object):
         self.stuck = 0
         self.specs = {c[0]: c for c in case['calls']}
         self.ctxs = {}
-        cls = flat.get_class(case['cls'])
+        _RUN_IDS[0] += 1
+        self.run_id = _RUN_IDS[0]
+        _RUNS[self.run_id] = self
+        for old_id in [k for k in _RUNS if k < self.run_id - 8]:
+            del _RUNS[old_id]
+        self_model = case.get('self_model')
+        cls = self_class(case['cls']) if self_model is not None else flat.get_class(case['cls'])
         kw = dict(flat.class_kwargs(case['cls']))
         if case['mctx']:
             kw['machine_context'] = [self.ctx(c) for c in case['mctx']]
-        self.machine = cls(model=None, states=['s%d' % s for s in case['states']], initial='s0',
+        by_ctor = False
+        if self_model is not None:
+            m0, s0, r0, cx0 = [x for x in case['models'] if x[0] == self_model][0]
+            by_ctor = bool(r0) and not cx0 and case['models'][0][0] == self_model
+        self.machine = cls(model=('self' if by_ctor else None), states=['s%d' % s for s in case['states']],
+                           initial=('s%d' % s0 if by_ctor else 's0'),
                            auto_transitions=False, send_event=True, ignore_invalid_triggers=True,
-                           prepare_event=[self.callback(0)], before_state_change=[self.callback(1)],
-                           after_state_change=[self.callback(2)], finalize_event=[self.callback(3)], **kw)
+                           prepare_event=['c06cb0'], before_state_change=['c06cb1'],
+                           after_state_change=['c06cb2'], finalize_event=['c06cb3'], **kw)
         self.models = {}
-        self.model_id = {}
         for m, s, r, cx in case['models']:
-            mo = Model()
+            if m == self_model:
+                mo = self.machine             # the machine is its own model
+                target = 'self'
+            else:
+                mo = target = Model()
+            mo.run_id, mo.mid = self.run_id, m
             self.models[m] = mo
-            self.model_id[id(mo)] = m
+            if m == self_model and by_ctor:
+                continue
             if not r:
                 mo.state = 's%d' % s          # a model object the machine does not know yet
             elif cx:
-                self.machine.add_model(mo, initial='s%d' % s, model_context=[self.ctx(c) for c in cx])
+                self.machine.add_model(target, initial='s%d' % s, model_context=[self.ctx(c) for c in cx])
             else:
-                self.machine.add_model(mo, initial='s%d' % s)
+                self.machine.add_model(target, initial='s%d' % s)
         for e, src, dst in case['trans']:
             self.machine.add_transition('e%d' % e, 's%d' % src, 's%d' % dst)
+        rt = case.get('roundtrip', 0)
+        if rt:
+            # the machine goes through pickle / deepcopy before any thread starts; everything must still be locked
+            import pickle
+            import copy as _copy
+            self.machine = pickle.loads(pickle.dumps(self.machine)) if rt == 1 else _copy.deepcopy(self.machine)
+            for mo in self.machine.models:
+                self.models[mo.mid] = mo
+        self.model_id = {}
 
     def ctx(self, c):
         if c not in self.ctxs:
             self.ctxs[c] = Ctx(self, c)
         return self.ctxs[c]
 
+    def on_cb(self, slot, ed):
+        run = self
+        w = run.by_ident.get(threading.get_ident())
+        cid = ed.args[0] if ed.args else 0
+        tid = 0
+        if w is not None:
+            tid = w.tid
+            w.yield_(('cb', cid, slot))
+        run.log.append([2, tid, cid, slot, getattr(ed.model, 'mid', 99), flat.state_int(ed.model)])
+        for sl, act, arg in run.specs[cid][5]:
+            if sl != slot:
+                continue
+            if act == 1:
+                raise flat.UserExc(cid)
+            if act == 2:
+                run.do_call(w, arg)
+
     def callback(self, slot):
         run = self
 
         def cb(ed):
-            w = run.by_ident.get(threading.get_ident())
-            cid = ed.args[0] if ed.args else 0
-            tid = 0
-            if w is not None:
-                tid = w.tid
-                w.yield_(('cb', cid, slot))
-            run.log.append([2, tid, cid, slot, run.model_id.get(id(ed.model), 99), flat.state_int(ed.model)])
-            for sl, act, arg in run.specs[cid][5]:
-                if sl != slot:
-                    continue
-                if act == 1:
-                    raise flat.UserExc(cid)
-                if act == 2:
-                    run.do_call(w, arg)
+            return run.on_cb(slot, ed)
         cb.__name__ = 'cb%d' % slot
         return cb
 
@@ -584,7 +666,7 @@ class Run(object):
                 cmap.append([k, [x.cid if isinstance(x, Ctx) else (99 if type(x).__name__ == 'IdentManager' else 0)
                                  for x in entry]])
         return [[[k, flat.state_int(mo)] for k, mo in sorted(self.models.items())],
-                [self.model_id[id(x)] for x in m.models],
+                [getattr(x, 'mid', 99) for x in m.models],
                 [int(s[1:]) for s in m.states],
                 trans, cmap]
 
@@ -936,6 +1018,12 @@ def stats(case, obs, dist):
     if any(cx for _, _, _, cx in case['models']):
         inc('with_model_context')
     inc('stream_' + case.get('stream', 'std'))
+    if case.get('self_model') is not None:
+        inc('machine_is_its_own_model')
+    if case.get('roundtrip'):
+        inc('roundtrip_' + ('pickle' if case['roundtrip'] == 1 else 'deepcopy'))
+        if case.get('self_model') is not None:
+            inc('roundtrip_of_a_machine_that_is_its_own_model')
     if case.get('exhaustive'):
         inc('schedule_from_enumeration_' + str(case['exhaustive']).replace(' ', '_'))
     if isinstance(obs, list) and obs[0] == 1:
